@@ -448,7 +448,10 @@ func c08Dispatch(p *Program, r *Report) {
 	}
 	r.Check(ok, "resume decision broadcasts the resume command", firstPos(g, bcast), "from the IsResume edge every path to the exit passes the broadcast")
 	// escalate: reached when none of the three holds; pause self, chained context, tell parent as system message
-	pause := nodesWhere(g, func(in ssa.Instruction) bool { c := callOf(in); return c != nil && c.IsInvoke() && c.Method.Name() == "Pause" })
+	pause := nodesWhere(g, func(in ssa.Instruction) bool {
+		c := callOf(in)
+		return c != nil && c.IsInvoke() && c.Method.Name() == "Pause"
+	})
 	ok = len(escalTells) == 1 && len(pause) > 0
 	for n := range escalTells {
 		if !g.DominatedByNodes(n, pause) {
@@ -531,7 +534,10 @@ func c08FailureEntry(p *Program, r *Report) {
 		return
 	}
 	g := p.ig(lc.Failed)
-	pause := nodesWhere(g, func(in ssa.Instruction) bool { c := callOf(in); return c != nil && c.IsInvoke() && c.Method.Name() == "Pause" })
+	pause := nodesWhere(g, func(in ssa.Instruction) bool {
+		c := callOf(in)
+		return c != nil && c.IsInvoke() && c.Method.Name() == "Pause"
+	})
 	var tells []tellSite
 	for _, ts := range p.tellSites(lc.Failed) {
 		tells = append(tells, ts)
